@@ -56,7 +56,7 @@ var targets = []target{
 // package (package-level sync.Map variables: the per-type plan caches today, whatever a change adds
 // tomorrow) so that each simulated run starts from a cold codec.
 func resetFile(pkgDir, pkgName, funcName string) string {
-	var names, kinds []string
+	var names, kinds, allVars []string
 	files, _ := filepath.Glob(filepath.Join(pkgDir, "*.go"))
 	sort.Strings(files)
 	for _, f := range files {
@@ -75,6 +75,9 @@ func resetFile(pkgDir, pkgName, funcName string) string {
 			for _, sp := range gd.Specs {
 				vs := sp.(*ast.ValueSpec)
 				for i, nm := range vs.Names {
+					if nm.Name != "_" {
+						allVars = append(allVars, nm.Name)
+					}
 					kind := ""
 					if isSyncMap(vs.Type) {
 						kind = "value"
@@ -104,7 +107,7 @@ func resetFile(pkgDir, pkgName, funcName string) string {
 		}
 	}
 	var b strings.Builder
-	fmt.Fprintf(&b, "package %s\n\nimport \"sync\"\n\nvar _ sync.Locker\n\n// %s empties the lazily built process-wide caches of this package. Added by the verification overlay only.\nfunc %s() {\n", pkgName, funcName, funcName)
+	fmt.Fprintf(&b, "package %s\n\nimport (\n\t\"sync\"\n\n\t\"kmipverif/simrt\"\n)\n\nvar _ sync.Locker\n\nvar verifVarSnap simrt.VarSnap\n\n// %s empties the lazily built process-wide caches of this package and puts every package-level map back to what it held\n// when the function was first called (after all init functions). Added by the verification overlay only.\nfunc %s() {\n", pkgName, funcName, funcName)
 	for i, n := range names {
 		if kinds[i] == "ptr" {
 			fmt.Fprintf(&b, "\t%s = new(sync.Map)\n", n)
@@ -112,7 +115,11 @@ func resetFile(pkgDir, pkgName, funcName string) string {
 			fmt.Fprintf(&b, "\t%s.Clear()\n", n)
 		}
 	}
-	b.WriteString("}\n")
+	b.WriteString("\tverifVarSnap.Restore(map[string]any{\n")
+	for _, n := range allVars {
+		fmt.Fprintf(&b, "\t\t%q: &%s,\n", n, n)
+	}
+	b.WriteString("\t})\n}\n")
 	return b.String()
 }
 
